@@ -222,32 +222,22 @@ def _coerce_variables(ck, repo):
 def _abort(ck, repo):
     b = repo.func("tartiflette/execution/context.py", "build_execution_context")
     bv = FuncView(b)
-    rets = bv.returns()
-    err_rets = [r for r in rets if isinstance(r.value, ast.Tuple) and unparse(r.value.elts[0]) == "None"]
-    ok = len(err_rets) == 1 and unparse(err_rets[0].value.elts[1]) == "errors" and bv.guarded(err_rets[0], lambda t: t == "errors", "T")
-    ck.ob("build_execution_context returns (None, errors) when any error was collected", ok, b, err_rets[0] if err_rets else b.node, construct="abort:context")
+    # when the answer is an errors-only pair and when a context is built: path-outcome table (any shape of the function)
+    from .c18 import context_table
+    context_table(ck, repo, tag="abort")
     ctor = bv.maybe_call("ExecutionContext")
-    ok = ctor is not None and bv.guarded(ctor, lambda t: t == "errors", "F")
-    ck.ob("build_execution_context builds a context only without errors", ok, b, ctor or b.node, construct="abort:context-built")
-    ext = [c for c in bv.calls("extend") if unparse(c.func.value) == "errors"]
     cv = bv.maybe_call("coerce_variables")
-    ok = cv is not None and len(ext) == 1 and unparse(ext[0].args[0]) == "variable_errors" and set(bv.conditions(ext[0])) <= {("operation", "T"), ("variable_errors", "T")} and \
-        ("variable_errors", "F") not in bv.conditions(ext[0])
-    st = bv.stmt_of(cv) if cv is not None else None
-    ok = ok and isinstance(st, ast.Assign) and unparse(st.targets[0]) == "(variable_values, variable_errors)"
-    ck.ob("build_execution_context adds every variable coercion error to the errors that abort the request", ok, b, ext[0] if ext else b.node,
-          construct="abort:variable-errors")
-    ok = cv is not None and [unparse(a) for a in cv.args] == ["executable_variable_definitions", f"{b.positional_params[4]} or {{}}", b.positional_params[3]]
+    ok = cv is not None and bv.is_awaited(cv) and [unparse(a) for a in cv.args][1:] == [f"{b.positional_params[4]} or {{}}", b.positional_params[3]] and \
+        (unparse(cv.args[0]) == "executable_variable_definitions" or unparse(cv.args[0]).startswith("collect_executable_variable_definitions("))
     ck.ob("coerce_variables receives the operation's definitions, the provided variables and the context", ok, b, cv or b.node, construct="abort:coerce-operands")
     kw = kwargs(ctor) if ctor is not None else {}
-    ck.ob("the execution context carries the coerced variable values", unparse(kw.get("variable_values")) == "variable_values", b, ctor or b.node,
-          construct="abort:coerced-values")
     pp = b.positional_params
     want = {"schema": pp[0], "fragments": "fragments", "operation": "operation", "context": pp[3], "root_value": pp[2], "variable_values": "variable_values"}
-    ck.ob("the execution context carries this request's schema, fragments, selected operation, context and root value", {k: unparse(v) for k, v in kw.items()} == want, b, ctor or b.node,
-          construct="abort:context-operands", detail=str({k: unparse(v) for k, v in kw.items()}))
-    okr = [r for r in rets if isinstance(r.value, ast.Tuple) and len(r.value.elts) == 2 and r.value.elts[0] is ctor and unparse(r.value.elts[1]) == "None"]
-    ck.ob("build_execution_context returns (context, None) otherwise - two returns in all", len(okr) == 1 and len(rets) == 2, b, okr[0] if okr else b.node, construct="abort:context-return")
+    ck.ob("the execution context carries this request's schema, fragments, selected operation, context, root value and the coerced variable values",
+          {k: unparse(v) for k, v in kw.items()} == want, b, ctor or b.node, construct="abort:context-operands", detail=str({k: unparse(v) for k, v in kw.items()}))
+    st = bv.stmt_of(cv) if cv is not None else None
+    ok = isinstance(st, ast.Assign) and isinstance(st.targets[0], ast.Tuple) and len(st.targets[0].elts) == 2 and unparse(st.targets[0].elts[0]) == "variable_values"
+    ck.ob("the coerced values (first component of coerce_variables' answer) are the ones handed to the context", ok, b, st or b.node, construct="abort:coerced-values")
     for fn, callee in (("execute", "execute_operation"), ("create_source_event_stream", "subscribe")):
         f = repo.func("tartiflette/execution/execute.py", fn)
         fv = FuncView(f)
